@@ -242,7 +242,7 @@ pub fn num_div_finite() {
     kani::cover!(r.is_ok(), "finite quotient reached");
 }
 
-//@harness tier=thorough optional=1 timeout=7200 desc="a/b on all pairs of finite doubles (the 53-bit divider may exceed the cap: recorded as not decided, the f32-valued bound above is the decided claim)" bounds="all pairs of finite doubles"
+//@harness tier=thorough optional=1 timeout=3600 desc="a/b on all pairs of finite doubles (the 53-bit divider may exceed the cap: recorded as not decided, the f32-valued bound above is the decided claim)" bounds="all pairs of finite doubles"
 #[kani::proof]
 #[kani::unwind(6)]
 pub fn num_div_full() {
@@ -725,7 +725,7 @@ op_row_cells!(optab_eq, Eq, 6);
 //@harness name=optab_neq tier=quick timeout=900 unwind=6 desc="operator type table row `!=`: every cell" bounds="48 concrete pairs of operand kinds (all but array/array) with symbolic contents; numbers: integers -128..=127; strings: <= 2 letters of a,b,c; arrays: <= 1 number; objects/functions: opaque"
 op_row_cells!(optab_neq, Neq, 6);
 
-//@harness tier=thorough optional=1 timeout=7200 desc="array/array comparison and equality: element-wise, shorter array first on a common prefix" bounds="arrays of <= 1 small number each, the six comparison operators"
+//@harness tier=thorough optional=1 timeout=3600 desc="array/array comparison and equality: element-wise, shorter array first on a common prefix" bounds="arrays of <= 1 small number each, the six comparison operators"
 #[kani::proof]
 #[kani::unwind(3)]
 pub fn array_compare() {
